@@ -7,10 +7,26 @@ import lib
 MODEL_DEPS = ['CheckLib', 'Loopback']
 KERNELS = ('Inverse', 'ChainContext')
 TRUSTED = ['Coq 8.16.1 kernel; vm_compute in case shards and the Example',
-           'hand-written Model/Loopback.v (BagContext / ChainContext / IdentityContext reverse, loopback) for six layer kinds with one forward and one '
-           'backward field, tied by the correspondence; the Inverse wrapper and the factory glue are exercised, not modelled']
-ASSUMPTIONS = ['one forward field x, one backward field y, one private parameter per layer; f symbolic']
-K = {'inv': 'KInv {i}', 'inv_noparam': 'KInvNoParam {i}', 'inherit_all': 'KInhAll', 'inherit_list': 'KInhList', 'fwd_only': 'KFwdOnly {i}', 'cache': 'KCache'}
+           'hand-written Model/Loopback.v (BagContext / ChainContext / IdentityContext reverse, loopback) for layers with one forward field and any '
+           'backward fields, tied by the correspondence; the Inverse wrapper and the factory glue are exercised, not modelled']
+ASSUMPTIONS = ['one forward field x; backward fields y and w; at most one private parameter per layer; f symbolic (field o of its result is f_o(x))']
+FWD = {'def_p': 'FDef true', 'def': 'FDef false', 'inherit': 'FInherit', 'none': 'FInherit'}
+
+
+def blayer(d):
+    defs = lib.clist(['{| bd_out := ' + lib.cstr(x['out']) + '; bd_fn := ' + lib.cstr(x['fn']) + '; bd_args := ' + lib.clist([lib.cstr(a) for a in x['args']])
+                      + f'; bd_param := {str(x["param"]).lower()} |}}' for x in d['defs']])
+    inh = 'InhAll' if d['inh'] == 'all' else 'InhList ' + lib.clist([lib.cstr(n) for n in d['inh']])
+    return f'{{| bl_id := {d["id"]}; bl_fwd := {FWD[d["fwd"]]}; bl_defs := {defs}; bl_inh := {inh}; bl_cache := {str(d["cache"]).lower()} |}}'
+
+
+def describe(c):
+    def one(d):
+        if d['kind'] != 'generic':
+            return d['kind']
+        return (f'{{x: {d["fwd"]}; ' + ', '.join(f'{x["out"]} = inverse {x["fn"]}({", ".join(x["args"])}{", _p" if x["param"] else ""})' for x in d['defs'])
+                + f'; inherit {d["inh"]}}}')
+    return '[' + ' >> '.join(one(d) for d in c['layers']) + f']._decorate("x", {c["outs"]}, {c["final"]})'
 
 
 def run(ctx):
@@ -21,41 +37,52 @@ def run(ctx):
         return {'evaluations': 0, 'distinct_nontrivial': 0, 'rule': '', 'samples': [],
                 'violations': [{'signature': 'harness-error', 'what': log[-800:], 'case': None}]}
     cases = json.load(open(out))['cases']
-    viol, lits = [], []
+    viol, lits, ok_cases = [], [], []
     for i, c in enumerate(cases):
+        case = {'layers': c['layers'], 'outs': c['outs'], 'final': c['final']}
+        if 'build_error' in c:
+            viol.append({'signature': 'oracle:loopback-unexpected-error', 'case': case, 'what': f'C10: chain {i} {describe(c)} could not be built: {c["build_error"]}'})
+            continue
         d = c['decorate']
         if 'error' in d:
-            viol.append({'signature': 'oracle:loopback-unexpected-error', 'case': {'kinds': c['kinds']}, 'what': f'C10: chain {i} {c["kinds"]}: {d["error"]}'})
+            viol.append({'signature': 'oracle:loopback-unexpected-error', 'case': case, 'what': f'C10: chain {i} {describe(c)}: {d["error"]}'})
             continue
         # the three entry points agree
         for other in ('wrap', 'loopback'):
             o = c[other]
             if ('val' in d) != ('val' in o) or ('val' in d and d['val'] != o['val']):
-                viol.append({'signature': 'oracle:entry-points-differ', 'case': {'kinds': c['kinds']}, 'observed': {other: o, 'decorate': d},
-                             'what': f'C10: chain {i} {c["kinds"]}: _decorate and _{other} disagree'})
+                viol.append({'signature': 'oracle:entry-points-differ', 'case': case, 'observed': {other: o, 'decorate': d},
+                             'what': f'C10: chain {i} {describe(c)}: _decorate and _{other} disagree'})
         # every function once per call
         if 'val' in d and len(set(d['calls'])) != len(d['calls']):
-            viol.append({'signature': 'oracle:loopback-double-evaluation', 'case': {'kinds': c['kinds']}, 'observed': d['calls'],
-                         'what': f'C10: chain {i} {c["kinds"]}: a function ran twice in one call: {d["calls"]}'})
-        res = 'None' if 'val' not in d else f'Some ({lib.cval(d["val"])})'
-        lits.append('{| lb_kinds := ' + lib.clist([K[k].format(i=j) for j, k in enumerate(c['kinds'])]) + f'; lb_result := {res} |}}')
+            viol.append({'signature': 'oracle:loopback-double-evaluation', 'case': case, 'observed': d['calls'],
+                         'what': f'C10: chain {i} {describe(c)}: a function ran twice in one call: {d["calls"]}'})
+        res = 'None' if 'val' not in d else 'Some ' + lib.clist([lib.cval(v) for v in d['val']])
+        lits.append('{| lb_layers := ' + lib.clist([blayer(x) for x in c['layers']]) + '; lb_outs := ' + lib.clist([lib.cstr(o) for o in c['outs']])
+                    + '; lb_final := ' + lib.clist([lib.cstr(o) for o in c['final']]) + f'; lb_result := {res} |}}')
+        ok_cases.append(c)
     shards = lib.write_shards(ctx['pid'], 'lb', ['Values', 'Loopback', 'CheckLib'], 'lb_case', 'check_loopback', lits, per=200)
     total, bad, errors = lib.run_shards(shards)
     for e in errors:
         viol.append({'signature': 'harness-error', 'what': e, 'case': None})
-    ok_cases = [c for c in cases if 'error' not in c['decorate']]
     for j, code in bad[:3]:
         c = ok_cases[j]
-        viol.append({'signature': f'corr:loopback:{code}', 'case': {'kinds': c['kinds']}, 'observed': c['decorate'],
-                     'what': f'C10: chain {c["kinds"]}: layer._decorate("x", "y")(f)(x0) ' + ('returned a value' if 'val' in c['decorate'] else 'was rejected')
-                             + ' but forward ; f ; inverses-in-reverse says otherwise (code 1: another value, 2: accepted vs rejected)'})
+        viol.append({'signature': f'corr:loopback:{code}', 'case': {'layers': c['layers'], 'outs': c['outs'], 'final': c['final']}, 'observed': c['decorate'],
+                     'what': f'C10: {describe(c)}(f)(x0) ' + ('returned ' + json.dumps(c['decorate']['val'])[:300] if 'val' in c['decorate'] else 'was rejected')
+                             + ' but forward ; f ; backward-parts-in-reverse says otherwise (code 1: another value, 2: accepted vs rejected)'})
     per, outv = {}, []
     for x in viol:
         per[x['signature']] = per.get(x['signature'], 0) + 1
         if per[x['signature']] <= 2:
             outv.append(x)
-    return {'evaluations': 3 * len(cases), 'distinct_nontrivial': len({tuple(c['kinds']) for c in cases if len(c['kinds']) >= 2}),
-            'rule': 'random chains of 1-6 layers (invertible with a private parameter shared by forward and inverse, invertible without, '
-                    'inherit-all, inherit x and y, forward-only, CacheToRam); _decorate, _wrap and _loopback applied to a symbolic f; distinct by kind sequence',
-            'samples': [cases[0]], 'distribution': {'accepted': sum(1 for c in cases if 'val' in c['decorate']), 'rejected': sum(1 for c in cases if 'rejected' in c['decorate'])},
+    good = [c for c in cases if 'decorate' in c]
+    return {'evaluations': 3 * len(cases), 'distinct_nontrivial': len({json.dumps([c['layers'], c['outs'], c['final']], sort_keys=True) for c in cases if len(c['layers']) >= 2}),
+            'rule': 'random chains of 1-6 layers: 40% from the six simple kinds (invertible with / without a private parameter, inherit-all, inherit x and y, '
+                    'forward-only, CacheToRam) with one backward field, 60% generic layers (x defined with or without parameter / inherited / absent; @inverse '
+                    'fields y and w with one or two backward arguments in either order, with or without the parameter; inherit all or a random list) with '
+                    'outputs [y], [w], [y, w], [w, y] and final = all or one of them; _decorate, _wrap and _loopback applied to a symbolic f; '
+                    'distinct by (layers, outputs, final)',
+            'samples': [cases[0]], 'distribution': {'accepted': sum(1 for c in good if 'val' in c['decorate']), 'rejected': sum(1 for c in good if 'rejected' in c['decorate']),
+                                                    'two_backward_fields': sum(1 for c in cases if len(c['outs']) == 2),
+                                                    'inverse_with_two_backward_arguments': sum(1 for c in cases if any(len(x['args']) == 2 for d in c['layers'] for x in d['defs']))},
             'violations': outv, 'oracle_checks': 3 * len(cases), 'mismatches': len(bad)}
